@@ -17,6 +17,8 @@ is consistent with the whole history, which is what the theorems quantify over.
   ack <id> <bytes> <decok> <code> <result> <message> <relayer> <fee> <sha>                    -> ok
   ackenc <code> <result> <message> <relayer> <fee> <ackid>    -> ok
   send <chain> <now> <pktid> <setSeqOk>                       -> ok|err <delta>
+  restart <chain>                                             -> ok -            (export -> JSON -> wipe -> import)
+  cons <chain> <client> <rev> <h> <root>                      -> ok              (consensus state of a bsc / eth client)
   plant <chain> <pktid>                                       -> ok <delta>     (commitment injected with the keeper setter)
   recv <chain> <now> <pktid> <proofid> <truth> <rev> <h> <signer> <cb>                        -> ok|err <delta> S=<ackStatus>
   ackm <chain> <now> <pktid> <ackid> <proofid> <truth> <rev> <h> <signer> <evm>               -> ok|err <delta> S=<ackStatus>
@@ -213,6 +215,30 @@ def step (st : St) (line : String) : St × String :=
         let d ← look st.decP bz
         pure (.sendPacket d.1 (okf == "1"), d.1))
       (fun _ _ => "")
+  | ["restart", chain] =>
+    -- genesis export -> JSON -> wipe -> import on the real chain; `Msg.restart` in the model (the identity)
+    match unhex chain with
+    | some cn =>
+      match getChain st cn with
+      | some c =>
+        let r := deliver (envOf st) c 0 .restart
+        (putChain st r.1, (match r.2 with | .ok => "ok" | .err => "err") ++ " " ++ deltaOf c r.1 [])
+      | none => (st, bad)
+    | none => (st, bad)
+  | ["cons", chain, name, rev, h, root] =>
+    -- a further consensus state of an EVM-secured (bsc / eth) client installed through the client keeper
+    match unhex chain, unhex name, u64? rev, u64? h, unhex root with
+    | some cn, some name, some rev, some h, some root =>
+      match getChain st cn with
+      | some c =>
+        match c.clients.get name with
+        | some cl =>
+          let ht : Height := ⟨rev, h⟩
+          let cl' := { cl with latest := maxHeight cl.latest ht, cons := cl.cons.set ht root }
+          (putChain st { c with clients := c.clients.set name cl' }, "ok")
+        | none => (st, bad)
+      | none => (st, bad)
+    | _, _, _, _, _ => (st, bad)
   | ["plant", chain, pid] =>
     -- test-only state injection (not a message): the harness wrote the commitment of this packet directly into the
     -- source chain's store with Keeper.SetPacketCommitment (sequences an honest sender cannot reach by sending)
